@@ -2307,8 +2307,11 @@ class Mesher:
         gmshElements: np.ndarray,
         coordinates: np.ndarray,
         dict_rank_nodes: dict[int, set[int]],
+        onlyOwnership: bool = False,
     ) -> list["_GroupElem"]:
-        """Splits the elements of `gmshId` into one `_GroupElem` per partition. The partition count comes from `dict_rank_nodes`, which is not tied to MPI_SIZE — see `_Mesh_Get_Meshes`."""
+        """Splits the elements of `gmshId` into one `_GroupElem` per partition. The partition count comes from `dict_rank_nodes`, which is not tied to MPI_SIZE — see `_Mesh_Get_Meshes`.
+
+        With `onlyOwnership` the nodes of this type's elements are claimed in `dict_rank_nodes` and nothing is built: a rank's ghost layer is made of the elements touching *any* node it owns, whichever element type it owns that node through, so the ownership has to be complete over all types before the groups are built."""
 
         Nproc = len(dict_rank_nodes)
 
@@ -2359,9 +2362,11 @@ class Mesher:
             nodes = set(connect_r.ravel()) - otherRankNodes
             dict_rank_nodes[rank].update(nodes)
             Nn += len(nodes)
-            # find ghost elements
-            # Convert to array once and reuse
-            nodes_arr = np.array(list(nodes), dtype=int)
+            if onlyOwnership:
+                continue
+            # find ghost elements: the elements of the other ranks touching a node this rank owns
+            # (through this type or any other)
+            nodes_arr = np.array(list(dict_rank_nodes[rank]), dtype=int)
             ghost_idx = set()
             for other_rank in range(Nproc):
                 if other_rank == rank:
@@ -2383,6 +2388,8 @@ class Mesher:
             connect_r_full = connect[all_idx]
             # create groupElem with owned + ghost elements
             groupElem = GroupElemFactory._Create(gmshId, connect_r_full, coordinates)
+            # the (non-ghost) nodes of the group: those of its elements, ghosts included, this rank owns
+            nodes_arr = np.intersect1d(np.unique(connect_r_full), nodes_arr)
             groupElem._Set_partitioned_data(
                 elements[idx_r], nodes_arr, rank, elements[list(ghost_idx)]
             )
@@ -2435,6 +2442,19 @@ class Mesher:
         list_dict_groupElem: list[dict[ElemType, "_GroupElem"]] = [
             {} for _ in range(Nproc)
         ]
+
+        if isPartitioned:
+            # node ownership over every element type first (see __Get_partitioned_groupElems)
+            for gmshId in elementTypes:
+                connect, elementTags = dict_connect[gmshId]
+                self.__Get_partitioned_groupElems(
+                    gmshId,
+                    connect,
+                    elementTags,
+                    coordinates,
+                    dict_rank_nodes,
+                    onlyOwnership=True,
+                )
 
         for gmshId in elementTypes:
             connect, elementTags = dict_connect[gmshId]
